@@ -147,7 +147,7 @@ def plan_rules(ctx, I):
                 Rs = S(cand)
         # the number of samples is governed by range(1, n) with n the density expression, on EVERY path (also the
         # ones that return the end point alone)
-        ranges = [e for e in s.trace if e[0] == 'range' and e[2].endswith('planArc')]
+        ranges = [e for e in s.trace if e[0] == 'range']
         ctx.instance('C16.R5', ('range', len(el), len(ranges)))
         if len(ranges) != 1 or len(ranges[0][1]) not in (1, 2) or not all(isinstance(a, Num) for a in ranges[0][1]):
             ctx.report('C16.R5', where, 'sample count not derived from the arc length (%d samples)' % (len(el) // 2),
